@@ -5,6 +5,7 @@
 import PaletteProofs.Real
 import PaletteProofs.Lemmas.RgbTables
 import PaletteProofs.Lemmas.Hexcone
+import PaletteProofs.Lemmas.HslGuard
 import PaletteModel.Color.RgbFamily
 import Mathlib.Tactic.FieldSimp
 import Mathlib.Tactic.Linarith
@@ -157,6 +158,7 @@ example : (0 : ℝ) ≤ 1 ∧ (0 : ℝ) ≤ 0.5 ∧ (0 : ℝ) ≤ 0 := by norm_n
 theorem rgb_hsl_rgb (r g b : ℝ) (hr : 0 ≤ r) (hg : 0 ≤ g) (hb : 0 ≤ b) (hr1 : r ≤ 1) (hg1 : g ≤ 1) (hb1 : b ≤ 1) :
     hslToRgb (rgbToHsl ⟨r, g, b⟩) = ⟨r, g, b⟩ := by
   unfold rgbToHsl
+  simp only [RealScalar.hslSat_eq]   -- the guard `divisor == 0` (c404fc5) is invisible at ℝ (`d / 0 = 0`); dead on the gamut: C02.rgbToHsl_guard_dead
   simp only [max0_of_nonneg hr, max0_of_nonneg hg, max0_of_nonneg hb, eqv_iff, RealScalar.invertedSum_eq]
   obtain ⟨b1, b2, b3, b4, b5, b6⟩ := maxMin_bounds r g b
   have hmin := min_nonneg r g b hr hg hb
@@ -485,6 +487,7 @@ theorem hsl_rgb_hsl (hue s l : ℝ) (hs0 : 0 < s) (hs1 : s ≤ 1) (hl0 : 0 < l) 
   have hT : sectorTriple k f (A * s) (l - A * s * 0.5) =
       ⟨(sectorTriple k f (A * s) (l - A * s * 0.5)).c0, (sectorTriple k f (A * s) (l - A * s * 0.5)).c1, (sectorTriple k f (A * s) (l - A * s * 0.5)).c2⟩ := rfl
   rw [hT]; unfold rgbToHsl
+  simp only [RealScalar.hslSat_eq]   -- the guard `divisor == 0` (c404fc5) is invisible at ℝ (`d / 0 = 0`); dead on the gamut: C02.rgbToHsl_guard_dead
   simp only [max0_of_nonneg n0, max0_of_nonneg n1, max0_of_nonneg n2, eqv_iff, hp, RealScalar.invertedSum_eq]
   rw [if_pos hne, phue, pmax, pmin]
   have esum : A * s + (l - A * s * 0.5) + (l - A * s * 0.5) = 2 * l := by norm_num; ring
@@ -630,6 +633,7 @@ theorem hsv_hsl_shortcut (hue s v : ℝ) (hs0 : 0 < s) (hs1 : s ≤ 1) (hv0 : 0 
   have hT : sectorTriple k f (v * s) (v - v * s) =
       ⟨(sectorTriple k f (v * s) (v - v * s)).c0, (sectorTriple k f (v * s) (v - v * s)).c1, (sectorTriple k f (v * s) (v - v * s)).c2⟩ := rfl
   rw [hT]; unfold rgbToHsl
+  simp only [RealScalar.hslSat_eq]   -- the guard `divisor == 0` (c404fc5) is invisible at ℝ (`d / 0 = 0`); dead on the gamut: C02.rgbToHsl_guard_dead
   simp only [max0_of_nonneg n0, max0_of_nonneg n1, max0_of_nonneg n2, eqv_iff, hp, RealScalar.invertedSum_eq]
   rw [if_pos hne, phue, pmax, pmin]
   have esum : v * s + (v - v * s) + (v - v * s) = (2 - s) * v := by ring
